@@ -12,7 +12,8 @@ m = {
     "hooks": {"guard": "MYGRAD_VERIF", "enable": "none needed: every check reads /repo's source only and never imports or runs mygrad",
               "baseline_off_cmd": BASE, "source_commits": [], "add_only": True},
     "engines": [{"name": "sa", "path": "sa/", "serves_properties": [c["property_id"] for c in CHECKS],
-                 "kind_free_text": "repo-specific static analyser: AST project model (name/MRO resolution), specialisable statement CFG with "
+                 "kind_free_text": "repo-specific static analyser: source normal form (equivalence transformations N1-N22) + recognition of benign drift, "
+                                   "AST project model (name/MRO resolution), helper-inlining normal form, specialisable statement CFG with "
                                    "exceptional edges + dominators (networkx), ownership/alias and linearity abstract interpretation, sympy term "
                                    "normalisation, call-graph effect summaries, in-memory mutant self-test bank"}],
     "checks": [],
